@@ -135,6 +135,11 @@ func (pr *Loader) findTableBuffer(s tableSection, dst []byte) ([]byte, error) {
 		defer r.Close()
 
 		if cap(dst) < int(s.zLength) {
+			// do not trust the announced length before allocating :
+			// deflate can not expand its input by more than a factor 1032
+			if uint64(s.zLength) > 1032*uint64(s.length)+64 {
+				return nil, errors.New("invalid compressed table length")
+			}
 			dst = make([]byte, s.zLength)
 		}
 		dst = dst[0:s.zLength]
@@ -143,6 +148,10 @@ func (pr *Loader) findTableBuffer(s tableSection, dst []byte) ([]byte, error) {
 		}
 	} else {
 		if cap(dst) < int(s.length) {
+			// do not trust the length announced by the directory before allocating
+			if size, err := pr.file.Seek(0, io.SeekEnd); err == nil && int64(s.offset)+int64(s.length) > size {
+				return nil, io.ErrUnexpectedEOF
+			}
 			dst = make([]byte, s.length)
 		}
 		dst = dst[0:s.length]
